@@ -22,6 +22,7 @@ pub mod scen_chaos;
 pub mod scen_locks;
 pub mod scen_discover;
 pub mod scen_cli;
+pub mod scen_cacherace;
 
 include!(concat!(env!("OUT_DIR"), "/overlay_info.rs"));
 
